@@ -164,6 +164,14 @@ func c06Specials() []*gen.Expr {
 		gen.Func("merge", gen.LitJSON("{}"), gen.Field("o"), gen.LitJSON("{}"), gen.Field("o2"), gen.LitJSON("{}")),
 		gen.Func("merge", gen.Field("o"), gen.Chain(gen.Field("o"), gen.StField("missing")), gen.Field("o2")),
 		gen.Func("merge", gen.Field("o"), gen.Field("o")),
+		// a literal list (3, 5 and 7 elements: spare capacity after decoding) in front of a document list, flattened: what
+		// is returned may not be a view of storage the compiled expression or the document keeps
+		gen.Chain(gen.MultiList(gen.LitJSON(`["base","common","std"]`), gen.Field("as")), gen.StFlatten()),
+		gen.Chain(gen.MultiList(gen.LitJSON(`[1,2,3,4,5]`), gen.Field("an"), gen.LitJSON(`[9]`)), gen.StFlatten()),
+		gen.Chain(gen.MultiList(gen.Field("an"), gen.LitJSON(`[7,8,9]`), gen.Field("bign")), gen.StFlatten()),
+		gen.Chain(gen.MultiList(gen.LitJSON(`[1,2,3,4,5,6,7]`), gen.Chain(gen.Field("ao"), gen.StListStar(), gen.StField("n"))), gen.StFlatten()),
+		gen.Func("map", gen.ExpRef(gen.Chain(gen.MultiList(gen.LitJSON(`["x","y","z"]`), gen.Field("an")), gen.StFlatten())), gen.Field("ao")),
+		gen.Chain(gen.MultiList(gen.Field("as"), gen.Field("as")), gen.StFlatten()),
 		// a multi-select hash that names exactly the members of the object it is applied to, as the first argument of merge
 		gen.Pipe(gen.Chain(gen.Field("o"), gen.StField("o")), gen.Func("merge", gen.MultiHash(keyA("n"), []*gen.Expr{gen.Field("n")}), gen.LitJSON(`{"seen":true}`))),
 		gen.Chain(gen.Field("ao"), gen.StListStar(), gen.StField("o"), gen.StFunc("merge", gen.MultiHash(keyA("n"), []*gen.Expr{gen.Field("n")}), gen.MultiHash(keyA("x"), []*gen.Expr{gen.Field("n")}))),
